@@ -31,12 +31,12 @@ ASSUMPTIONS = [
     "an enumeration of all alignments",
     "dyadic costs: float32 cost sums are exact, so no tie exists only in floating point",
     "normalised values compared with relative tolerance 1e-6 (one float32 division)",
-    "loss compared in float64 with tolerance 2e-6 + 2e-5*|expected|",
+    "loss compared in float64 with tolerance 5e-7 + 5e-6*|expected|",
     "USE_JIT off (library runs as plain Python)",
 ]
 BUDGET = {
-    "quick": dict(cases=1000, shards=4, timeout=600),
-    "thorough": dict(cases=12000, shards=16, timeout=3000),
+    "quick": dict(cases=1000, shards=4, timeout=1800),
+    "thorough": dict(cases=8000, shards=16, timeout=5400),
 }
 ER_CLASSES = [c for c in G.CLASSES if c != "nondyadic"] + ["sub_eq_insdel", "sub_gt_insdel"]
 LOSS_CLASSES = ["loss_ref2d", "loss_ref3d", "loss_spread", "loss_equal_costs", "loss_tie_costs",
@@ -55,7 +55,7 @@ FLOORS = {
         "classes": dict({c: 100 for c in ER_CLASSES}, **{c: 100 for c in LOSS_CLASSES}),
         "stats": {"pairs_lo_lt_hi": 300, "cheapest_not_shortest": 300, "loss_rate_sets_nonsingleton": 20,
                   "loss_reduction_none": 200, "loss_reduction_sum": 200, "loss_reduction_mean": 200,
-                  "form_module": 800},
+                  "form_module": 800, "loss_zero_width_tensor": 15},
         "distinct": 2500,
     },
     "thorough": {
@@ -108,6 +108,14 @@ def gen_loss_case(rng, tier, j):
     eos = rng.choice([None, 0, 0, 9])
     if cls == "loss_empty_ref":
         eos = rng.choice([0, 9])
+        z = rng.random()
+        if z < 0.3:
+            # zero-width tensors without eos: every reference (or hypothesis) of the batch is empty
+            eos = None
+            if z < 0.2:
+                R = 0
+            if z > 0.1:
+                H = 0
     alphabet = list(range(1, rng.randint(1, 4) + 1))
     ref3d = cls == "loss_ref3d" or (cls != "loss_ref2d" and rng.random() < 0.4)
     include_eos = rng.random() < 0.5
@@ -293,7 +301,7 @@ def _exec_er(case, mon):
             if k <= last:
                 cell = T[k][R]
                 _judge(mon, g, S[k][R][1], cell[1], cell[2], int(U[k][R]), R, k, norm, equal,
-                       "prefix_error_rates", n=n, k=k, ref=r, hyp=h[:k])
+                       "prefix_error_rates", n=n, prefix=k, ref=r, hyp=h[:k])
             else:
                 mon.check(g == float(case["padding"]), "prefix-padding", observed=g,
                           expected=case["padding"], n=n, k=k, hyp_len=len(h))
@@ -359,6 +367,8 @@ def _exec_loss(case, mon):
     out = _call_loss(mon, case, lp, ref, hyp)
     red = case["reduction"]
     mon.stat("loss_reduction_" + red)
+    if case["R"] == 0 or case["H"] == 0:
+        mon.stat("loss_zero_width_tensor")
     want_shape = (N, M) if red == "none" else ()
     mon.check(tuple(out.shape) == want_shape, "loss-shape", observed=list(out.shape), expected=list(want_shape))
     if not judged:
@@ -391,15 +401,16 @@ def _exec_loss(case, mon):
     got = out.double()
 
     def near(a, b):
-        return abs(a - b) <= 2e-6 + 2e-5 * abs(b)
+        return abs(a - b) <= 5e-7 + 5e-6 * abs(b)
 
     if red == "none":
         for n in range(N):
             g = got[n].tolist()
             ok = any(all(near(g[m], cand[m]) for m in range(M)) for cand in row_cands[n])
             if ok:
-                best = min(max(abs(g[m] - cand[m]) for m in range(M)) for cand in row_cands[n])
-                mon.dev("loss-value", best, 2e-6)
+                best = min(max(abs(g[m] - cand[m]) / (5e-7 + 5e-6 * abs(cand[m])) for m in range(M))
+                           for cand in row_cands[n])
+                mon.dev("loss-value(fraction of tolerance)", best, 1.0)
             mon.check(ok and all(x == x for x in g), "loss-value", observed=g,
                       admissible=row_cands[n][:8], n=n, log_probs=lp64[n], reduction=red)
     else:
@@ -414,7 +425,8 @@ def _exec_loss(case, mon):
         g = float(got)
         ok = any(near(g, t) for t in totals)
         if ok:
-            mon.dev("loss-value", min(abs(g - t) for t in totals), 2e-6)
+            mon.dev("loss-value(fraction of tolerance)",
+                    min(abs(g - t) / (5e-7 + 5e-6 * abs(t)) for t in totals), 1.0)
         mon.check(ok and g == g, "loss-value", observed=g, admissible=sorted(totals)[:8], reduction=red)
     if not nontrivial:
         mon.trivial()
